@@ -150,8 +150,15 @@ func (root *Root) resolve(
 	switch tt := t.(type) {
 	case *List:
 		result, ea = root.resolveList(obj, vars, field, tt, depth-1)
-	case *Object, *Schema, *Interface, *uuSchema:
+	case *Object, *Schema, *uuSchema:
 		result, ea = root.resolveFieldSels(obj, vars, field, t, depth-1)
+	case *Interface:
+		// Resolve against the concrete object type when the Go type of the
+		// object is bound to one of the implementing types so that
+		// __typename and fragment conditions see the concrete type. If the
+		// concrete type can not be determined (Resolver only approach) the
+		// interface itself is used.
+		result, ea = root.resolveFieldSels(obj, vars, field, root.concreteType(obj, tt), depth-1)
 	case *NonNull:
 		result, ea = root.resolve(obj, vars, field, tt.Base, depth)
 	case *Union:
@@ -163,15 +170,25 @@ func (root *Root) resolve(
 		// will be nil so check for a @go directive then a type argument that
 		// matches the object type. If there is a match then set the meta.
 		objType := reflect.TypeOf(obj)
+		var merr error
+		matched := false
 		for _, m := range tt.Members {
 			if ot, _ := m.(*Object); ot != nil { // already checked in validation
 				if meta, err := ot.metaCheck(objType); err != nil {
-					return nil, []error{err}
+					// Not this member. Keep looking, a later member might
+					// be the type of the object.
+					if merr == nil {
+						merr = err
+					}
 				} else if objType == meta {
 					result, ea = root.resolveFieldSels(obj, vars, field, m, depth-1)
+					matched = true
 					break
 				}
 			}
+		}
+		if !matched && merr != nil {
+			return nil, []error{merr}
 		}
 	default:
 		// Validation makes sure all output types are valid so no need to
@@ -745,10 +762,60 @@ func (root *Root) resolveInline(
 	result map[string]interface{},
 	depth int) (ea []error) {
 
-	if sel.Condition == nil || sel.Condition == t {
+	if fragApplies(sel.Condition, t) {
 		ea = root.resolveSels(obj, vars, sel.Sels, t, result, depth)
 	}
 	return
+}
+
+// fragApplies returns true if a fragment with the type condition cond applies
+// to an object of type t. That is the case if there is no condition, if the
+// condition is the type itself, an interface the type implements, or a union
+// the type is a member of.
+func fragApplies(cond, t Type) bool {
+	if cond == nil || cond == t {
+		return true
+	}
+	ot, _ := t.(*Object)
+	if ot == nil {
+		return false
+	}
+	switch tc := cond.(type) {
+	case *Interface:
+		for _, i := range ot.Interfaces {
+			if i == cond {
+				return true
+			}
+		}
+	case *Union:
+		for _, m := range tc.Members {
+			if m == t {
+				return true
+			}
+		}
+	}
+	return false
+}
+
+// concreteType returns the object type that implements the interface and is
+// bound to the Go type of obj. If there is none the interface is returned.
+func (root *Root) concreteType(obj interface{}, it *Interface) Type {
+	rt := reflect.TypeOf(obj)
+	for _, t := range root.types.list {
+		ot, _ := t.(*Object)
+		if ot == nil {
+			continue
+		}
+		for _, i := range ot.Interfaces {
+			if i == Type(it) {
+				if meta, err := ot.metaCheck(rt); err == nil && meta == rt {
+					return ot
+				}
+				break
+			}
+		}
+	}
+	return it
 }
 
 func (root *Root) resolveFragRef(
@@ -759,7 +826,7 @@ func (root *Root) resolveFragRef(
 	result map[string]interface{},
 	depth int) (ea []error) {
 
-	if sel.Fragment.Condition == nil || sel.Fragment.Condition == t {
+	if fragApplies(sel.Fragment.Condition, t) {
 		ea = root.resolveSels(obj, vars, sel.Fragment.Sels, t, result, depth)
 		if 0 < len(ea) {
 			Errors(ea).in(fmt.Sprintf("fragment at %d:%d", sel.Line(), sel.Column()))
